@@ -665,6 +665,87 @@ pub fn run(replay: Option<Value>) -> i32 {
         ));
     }
 
+    // two factorisations in a row on one thread: every ordered pair (A, B) over a small alphabet of 2x2 and 3x3
+    // integer matrices (singular ones included).  Real: factorise A (accepted or rejected), then factorise and solve
+    // B.  Complex (A + iA^T, B + iB^T): factorise A, factorise B, then solve with A's factors, which are still alive.
+    if only.as_ref().map(|o| o.starts_with("pairseq:")).unwrap_or(true) {
+        let alpha: Vec<(usize, Vec<i64>)> = vec![
+            (2, vec![0, 1, 0, 1]),
+            (2, vec![2, 1, 1, 3]),
+            (2, vec![0, 1, 1, 0]),
+            (2, vec![1, 2, 3, 4]),
+            (2, vec![1, 1, 1, 1]),
+            (3, vec![0, 1, 2, 0, 3, 1, 0, 0, 2]),
+            (3, vec![2, 1, 0, 1, 3, 1, 0, 1, 4]),
+            (3, vec![0, 2, 1, 1, 0, 3, 4, 1, 0]),
+            (3, vec![1, 2, 3, 4, 5, 6, 7, 8, 10]),
+        ];
+        for (ia, (na, a)) in alpha.iter().enumerate() {
+            for (ib, (nb, b)) in alpha.iter().enumerate() {
+                let key = format!("pairseq:{}.{}", ia, ib);
+                if only.as_ref().map(|o| *o != key).unwrap_or(false) {
+                    continue;
+                }
+                rep.evaluations += 1;
+                let verdict = guarded(|| -> Option<String> {
+                    let (na, nb) = (*na, *nb);
+                    let af: Vec<f64> = a.iter().map(|v| *v as f64).collect();
+                    let bf: Vec<f64> = b.iter().map(|v| *v as f64).collect();
+                    // real
+                    let mut ma = Matrix::from_vec(na, na, af.clone());
+                    let mut ipa = vec![0usize; na];
+                    let _ = lu_decomp(&mut ma, &mut ipa);
+                    let mut mb = Matrix::from_vec(nb, nb, bf.clone());
+                    let mut ipb = vec![0usize; nb];
+                    let rb = lu_decomp(&mut mb, &mut ipb);
+                    let xs: Vec<f64> = (0..nb).map(|i| 1.0 + i as f64).collect();
+                    let rhs: Vec<f64> = (0..nb).map(|i| (0..nb).map(|j| bf[i * nb + j] * xs[j]).sum()).collect();
+                    match (rb.is_ok(), det_real(nb, b) != 0) {
+                        (true, true) => {
+                            let mut x = rhs.clone();
+                            lin_solve(&mb, &mut x, &ipb);
+                            let e = x.iter().zip(&xs).fold(0.0f64, |m, (u, v)| m.max((u - v).abs()));
+                            if !(e <= 1e-12) {
+                                return Some(format!("real: after factorising {:?}, the solve with {:?} gives {:?} instead of {:?}", a, b, x, xs));
+                            }
+                        }
+                        (false, true) => return Some(format!("real: after factorising {:?}, the nonsingular {:?} is rejected", a, b)),
+                        (true, false) => return Some(format!("real: after factorising {:?}, the singular {:?} is accepted", a, b)),
+                        _ => {}
+                    }
+                    // complex: M + i M^T
+                    let tr = |m: &Vec<f64>, n: usize| -> Vec<f64> { (0..n * n).map(|k| m[(k % n) * n + k / n]).collect() };
+                    let (mut ar, mut ai) = (Matrix::from_vec(na, na, af.clone()), Matrix::from_vec(na, na, tr(&af, na)));
+                    let mut ipa = vec![0usize; na];
+                    let ra = lu_decomp_complex(&mut ar, &mut ai, &mut ipa);
+                    let (mut br, mut bi) = (Matrix::from_vec(nb, nb, bf.clone()), Matrix::from_vec(nb, nb, tr(&bf, nb)));
+                    let mut ipb = vec![0usize; nb];
+                    let _ = lu_decomp_complex(&mut br, &mut bi, &mut ipb);
+                    if ra.is_ok() {
+                        // solve (A + i A^T) z = (A + i A^T)(x + 0 i) with A's factors
+                        let xs: Vec<f64> = (0..na).map(|i| 1.0 + i as f64).collect();
+                        let at = tr(&af, na);
+                        let mut zr: Vec<f64> = (0..na).map(|i| (0..na).map(|j| af[i * na + j] * xs[j]).sum()).collect();
+                        let mut zi: Vec<f64> = (0..na).map(|i| (0..na).map(|j| at[i * na + j] * xs[j]).sum()).collect();
+                        lin_solve_complex(&ar, &ai, &mut zr, &mut zi, &ipa);
+                        let e = zr.iter().zip(&xs).fold(0.0f64, |m, (u, v)| m.max((u - v).abs())).max(zi.iter().fold(0.0f64, |m, v| m.max(v.abs())));
+                        if !(e <= 1e-11) {
+                            return Some(format!("complex: the factors of {:?} + i(..)^T, used after {:?} was factorised as well, give ({:?}, {:?}) instead of ({:?}, 0)", a, b, zr, zi, xs));
+                        }
+                    }
+                    None
+                });
+                rep.validated += 1;
+                *rep.tags.entry("factorisation-pairs".into()).or_insert(0) += 1;
+                let msg = match verdict {
+                    Ok(None) => continue,
+                    Ok(Some(m)) => m,
+                    Err(p) => format!("panicked: {}", p),
+                };
+                rep.violations.push(Violation::new(&key, "pair-sequence", msg, json!({"key": key})).with("field", "both"));
+            }
+        }
+    }
     let mut lattice = vec![];
     for (name, total, f) in groups {
         let outs = par_map(total, |i| f(i));
